@@ -116,6 +116,9 @@ def main(argv=None):
 
     ledger = load_ledger(prop)
     known_sigs = [k["sig"] for k in ledger]
+    # development only: continue the search behind a defect that is not dispositioned yet
+    dev_known = [x for x in (os.environ.get("VERIF_EXTRA_KNOWN") or "").split(";;") if x]
+    known_sigs += dev_known
 
     # ---- replay mode
     if a.replay:
